@@ -30,7 +30,7 @@ def registry():
                 reg[name] = obj
     for name in ("TableCost", "TableSaving", "TableChangeScore", "TableLocalAnomalyScore", "L1Cost", "TrendPenalisedL2Cost", "MemoisingAbsCost", "WeightedCUSUM",
                  "FixedChangeDetector", "IndexLabelChangeDetector", "FunctionChangeScore", "FunctionLocalAnomalyScore",
-                 "SecondMomentChangeScore", "SecondMomentLocalScore", "DirectLocalMeanScore", "ProfileChangeScore"):
+                 "SecondMomentChangeScore", "SecondMomentLocalScore", "DirectLocalMeanScore", "ProfileChangeScore", "WelchChangeScore"):
         reg[name] = getattr(U, name)
     return reg
 
@@ -147,6 +147,8 @@ def scorer_min_size(spec, p):
         return spec.get("msize", 1)
     if cls == "ProfileChangeScore":
         return 1
+    if cls == "WelchChangeScore":
+        return 2
     raise ValueError(cls)
 
 
@@ -163,7 +165,7 @@ def score_magnitude(spec, X, length, default="CUSUM"):
     while isinstance(inner, dict) and ("cost" in inner or "baseline_cost" in inner):
         inner = inner.get("cost", inner.get("baseline_cost"))
     cls = default if inner is None else inner["cls"]
-    if cls.startswith(("Gaussian", "Table", "Function", "Profile")):
+    if cls.startswith(("Gaussian", "Table", "Function", "Profile", "Welch")):
         return 1.0 + (length if cls.startswith("Gaussian") else 0.0)
     if cls in ("CUSUM", "WeightedCUSUM"):
         return p * (length ** 0.5) * M * (max(abs(float(w)) for w in inner.get("weights", [1.0])) if isinstance(inner, dict) else 1.0)
